@@ -202,6 +202,7 @@ func (c *ValidatorCache) GetBySlot(ctx context.Context, slot uint64) (ActiveVali
 type ProposerDuties struct {
 	sync.RWMutex
 
+	gen           uint64 // incremented by every invalidation/trim; a fill started under an older generation is dropped
 	requestedIdxs map[eth2p0.Epoch][]eth2p0.ValidatorIndex
 	duties        map[eth2p0.Epoch][]eth2v1.ProposerDuty
 	metadata      map[eth2p0.Epoch]map[string]any
@@ -209,6 +210,7 @@ type ProposerDuties struct {
 
 // ProposerDutiesForEpoch is a map of proposer duties for specific epoch.
 type ProposerDutiesForEpoch struct {
+	gen           uint64
 	requestedIdxs []eth2p0.ValidatorIndex
 	duties        []eth2v1.ProposerDuty
 	metadata      map[string]any
@@ -218,6 +220,7 @@ type ProposerDutiesForEpoch struct {
 type AttesterDuties struct {
 	sync.RWMutex
 
+	gen           uint64 // incremented by every invalidation/trim; a fill started under an older generation is dropped
 	requestedIdxs map[eth2p0.Epoch][]eth2p0.ValidatorIndex
 	duties        map[eth2p0.Epoch][]eth2v1.AttesterDuty
 	metadata      map[eth2p0.Epoch]map[string]any
@@ -225,6 +228,7 @@ type AttesterDuties struct {
 
 // AttesterDutiesForEpoch is a map of attester duties for specific epoch.
 type AttesterDutiesForEpoch struct {
+	gen           uint64
 	requestedIdxs []eth2p0.ValidatorIndex
 	duties        []eth2v1.AttesterDuty
 	metadata      map[string]any
@@ -234,6 +238,7 @@ type AttesterDutiesForEpoch struct {
 type SyncDuties struct {
 	sync.RWMutex
 
+	gen           uint64 // incremented by every invalidation/trim; a fill started under an older generation is dropped
 	requestedIdxs map[eth2p0.Epoch][]eth2p0.ValidatorIndex
 	duties        map[eth2p0.Epoch][]eth2v1.SyncCommitteeDuty
 	metadata      map[eth2p0.Epoch]map[string]any
@@ -241,6 +246,7 @@ type SyncDuties struct {
 
 // SyncDutiesForEpoch is a map of sync committee duties for specific epoch.
 type SyncDutiesForEpoch struct {
+	gen           uint64
 	requestedIdxs []eth2p0.ValidatorIndex
 	duties        []eth2v1.SyncCommitteeDuty
 	metadata      map[string]any
@@ -442,7 +448,7 @@ func (c *DutiesCache) ProposerDutiesCache(ctx context.Context, epoch eth2p0.Epoc
 		dutiesDeref = append(dutiesDeref, d)
 	}
 
-	_, ok = c.storeOrAmendProposerDuties(epoch, ProposerDutiesForEpoch{duties: dutiesDeref, metadata: eth2Resp.Metadata, requestedIdxs: requestVidxs})
+	_, ok = c.storeOrAmendProposerDuties(epoch, ProposerDutiesForEpoch{gen: dutiesForEpoch.gen, duties: dutiesDeref, metadata: eth2Resp.Metadata, requestedIdxs: requestVidxs})
 	if !ok {
 		log.Debug(ctx, "Failed to cache proposer duties - another routine already cached duties for this epoch, skipping", z.U64("epoch", uint64(epoch)))
 	}
@@ -537,7 +543,7 @@ func (c *DutiesCache) AttesterDutiesCache(ctx context.Context, epoch eth2p0.Epoc
 		dutiesDeref = append(dutiesDeref, d)
 	}
 
-	_, ok = c.storeOrAmendAttesterDuties(epoch, AttesterDutiesForEpoch{duties: dutiesDeref, metadata: eth2Resp.Metadata, requestedIdxs: requestVidxs})
+	_, ok = c.storeOrAmendAttesterDuties(epoch, AttesterDutiesForEpoch{gen: dutiesForEpoch.gen, duties: dutiesDeref, metadata: eth2Resp.Metadata, requestedIdxs: requestVidxs})
 	if !ok {
 		log.Debug(ctx, "Failed to cache attester duties - another routine already cached duties for this epoch, skipping", z.U64("epoch", uint64(epoch)))
 	}
@@ -634,7 +640,7 @@ func (c *DutiesCache) SyncCommDutiesCache(ctx context.Context, epoch eth2p0.Epoc
 		dutiesDeref = append(dutiesDeref, d)
 	}
 
-	_, ok = c.storeOrAmendSyncDuties(epoch, SyncDutiesForEpoch{duties: dutiesDeref, metadata: eth2Resp.Metadata, requestedIdxs: requestVidxs})
+	_, ok = c.storeOrAmendSyncDuties(epoch, SyncDutiesForEpoch{gen: dutiesForEpoch.gen, duties: dutiesDeref, metadata: eth2Resp.Metadata, requestedIdxs: requestVidxs})
 	if !ok {
 		log.Debug(ctx, "Failed to cache sync duties - another routine already cached duties for this epoch, skipping", z.U64("epoch", uint64(epoch)))
 	}
@@ -649,22 +655,24 @@ func (c *DutiesCache) fetchProposerDuties(epoch eth2p0.Epoch) (ProposerDutiesFor
 	c.proposerDuties.RLock()
 	defer c.proposerDuties.RUnlock()
 
+	gen := c.proposerDuties.gen
+
 	duties, ok := c.proposerDuties.duties[epoch]
 	if !ok {
-		return ProposerDutiesForEpoch{}, false
+		return ProposerDutiesForEpoch{gen: gen}, false
 	}
 
 	metadata, ok := c.proposerDuties.metadata[epoch]
 	if !ok {
-		return ProposerDutiesForEpoch{}, false
+		return ProposerDutiesForEpoch{gen: gen}, false
 	}
 
 	requestedIdxs, ok := c.proposerDuties.requestedIdxs[epoch]
 	if !ok {
-		return ProposerDutiesForEpoch{}, false
+		return ProposerDutiesForEpoch{gen: gen}, false
 	}
 
-	return ProposerDutiesForEpoch{duties: duties, metadata: metadata, requestedIdxs: requestedIdxs}, true
+	return ProposerDutiesForEpoch{gen: gen, duties: duties, metadata: metadata, requestedIdxs: requestedIdxs}, true
 }
 
 // fetchAttesterDuties returns the cached attester duties and true if they are available.
@@ -672,22 +680,24 @@ func (c *DutiesCache) fetchAttesterDuties(epoch eth2p0.Epoch) (AttesterDutiesFor
 	c.attesterDuties.RLock()
 	defer c.attesterDuties.RUnlock()
 
+	gen := c.attesterDuties.gen
+
 	duties, ok := c.attesterDuties.duties[epoch]
 	if !ok {
-		return AttesterDutiesForEpoch{}, false
+		return AttesterDutiesForEpoch{gen: gen}, false
 	}
 
 	metadata, ok := c.attesterDuties.metadata[epoch]
 	if !ok {
-		return AttesterDutiesForEpoch{}, false
+		return AttesterDutiesForEpoch{gen: gen}, false
 	}
 
 	requestedIdxs, ok := c.attesterDuties.requestedIdxs[epoch]
 	if !ok {
-		return AttesterDutiesForEpoch{}, false
+		return AttesterDutiesForEpoch{gen: gen}, false
 	}
 
-	return AttesterDutiesForEpoch{duties: duties, metadata: metadata, requestedIdxs: requestedIdxs}, true
+	return AttesterDutiesForEpoch{gen: gen, duties: duties, metadata: metadata, requestedIdxs: requestedIdxs}, true
 }
 
 // fetchSyncDuties returns the cached sync duties and true if they are available.
@@ -695,22 +705,24 @@ func (c *DutiesCache) fetchSyncDuties(epoch eth2p0.Epoch) (SyncDutiesForEpoch, b
 	c.syncDuties.RLock()
 	defer c.syncDuties.RUnlock()
 
+	gen := c.syncDuties.gen
+
 	duties, ok := c.syncDuties.duties[epoch]
 	if !ok {
-		return SyncDutiesForEpoch{}, false
+		return SyncDutiesForEpoch{gen: gen}, false
 	}
 
 	metadata, ok := c.syncDuties.metadata[epoch]
 	if !ok {
-		return SyncDutiesForEpoch{}, false
+		return SyncDutiesForEpoch{gen: gen}, false
 	}
 
 	requestedIdxs, ok := c.syncDuties.requestedIdxs[epoch]
 	if !ok {
-		return SyncDutiesForEpoch{}, false
+		return SyncDutiesForEpoch{gen: gen}, false
 	}
 
-	return SyncDutiesForEpoch{duties: duties, metadata: metadata, requestedIdxs: requestedIdxs}, true
+	return SyncDutiesForEpoch{gen: gen, duties: duties, metadata: metadata, requestedIdxs: requestedIdxs}, true
 }
 
 // storeOrAmendProposerDuties stores proposer duties in the cache for the given epoch if they don't exist and false if they already exists.
@@ -719,6 +731,10 @@ func (c *DutiesCache) fetchSyncDuties(epoch eth2p0.Epoch) (SyncDutiesForEpoch, b
 func (c *DutiesCache) storeOrAmendProposerDuties(epoch eth2p0.Epoch, dutiesForEpoch ProposerDutiesForEpoch) ([]eth2v1.ProposerDuty, bool) {
 	c.proposerDuties.Lock()
 	defer c.proposerDuties.Unlock()
+
+	if c.proposerDuties.gen != dutiesForEpoch.gen {
+		return nil, false // invalidated or trimmed since this fill started
+	}
 
 	alreadySavedDuties, ok := c.proposerDuties.duties[epoch]
 	if !ok {
@@ -767,6 +783,10 @@ func (c *DutiesCache) storeOrAmendProposerDuties(epoch eth2p0.Epoch, dutiesForEp
 func (c *DutiesCache) storeOrAmendAttesterDuties(epoch eth2p0.Epoch, dutiesForEpoch AttesterDutiesForEpoch) ([]eth2v1.AttesterDuty, bool) {
 	c.attesterDuties.Lock()
 	defer c.attesterDuties.Unlock()
+
+	if c.attesterDuties.gen != dutiesForEpoch.gen {
+		return nil, false // invalidated or trimmed since this fill started
+	}
 
 	alreadySavedDuties, ok := c.attesterDuties.duties[epoch]
 	if !ok {
@@ -817,6 +837,10 @@ func (c *DutiesCache) storeOrAmendSyncDuties(epoch eth2p0.Epoch, dutiesForEpoch 
 	c.syncDuties.Lock()
 	defer c.syncDuties.Unlock()
 
+	if c.syncDuties.gen != dutiesForEpoch.gen {
+		return nil, false // invalidated or trimmed since this fill started
+	}
+
 	alreadySavedDuties, ok := c.syncDuties.duties[epoch]
 	if !ok {
 		c.syncDuties.duties[epoch] = dutiesForEpoch.duties
@@ -863,6 +887,8 @@ func (c *DutiesCache) trimBeforeProposerDuties(epoch eth2p0.Epoch) bool {
 	c.proposerDuties.Lock()
 	defer c.proposerDuties.Unlock()
 
+	c.proposerDuties.gen++
+
 	ok := false
 
 	for k := range c.proposerDuties.duties {
@@ -896,6 +922,8 @@ func (c *DutiesCache) trimBeforeProposerDuties(epoch eth2p0.Epoch) bool {
 func (c *DutiesCache) trimBeforeAttesterDuties(epoch eth2p0.Epoch) bool {
 	c.attesterDuties.Lock()
 	defer c.attesterDuties.Unlock()
+
+	c.attesterDuties.gen++
 
 	ok := false
 
@@ -931,6 +959,8 @@ func (c *DutiesCache) trimBeforeSyncDuties(epoch eth2p0.Epoch) bool {
 	c.syncDuties.Lock()
 	defer c.syncDuties.Unlock()
 
+	c.syncDuties.gen++
+
 	ok := false
 
 	for k := range c.syncDuties.duties {
@@ -964,6 +994,8 @@ func (c *DutiesCache) trimBeforeSyncDuties(epoch eth2p0.Epoch) bool {
 func (c *DutiesCache) trimAfterProposerDuties(epoch eth2p0.Epoch) bool {
 	c.proposerDuties.Lock()
 	defer c.proposerDuties.Unlock()
+
+	c.proposerDuties.gen++
 
 	ok := false
 
@@ -999,6 +1031,8 @@ func (c *DutiesCache) trimAfterAttesterDuties(epoch eth2p0.Epoch) bool {
 	c.attesterDuties.Lock()
 	defer c.attesterDuties.Unlock()
 
+	c.attesterDuties.gen++
+
 	ok := false
 
 	for k := range c.attesterDuties.duties {
@@ -1032,6 +1066,8 @@ func (c *DutiesCache) trimAfterAttesterDuties(epoch eth2p0.Epoch) bool {
 func (c *DutiesCache) trimAfterSyncDuties(epoch eth2p0.Epoch) bool {
 	c.syncDuties.Lock()
 	defer c.syncDuties.Unlock()
+
+	c.syncDuties.gen++
 
 	ok := false
 
